@@ -3,7 +3,7 @@
 patch.diff, the demonstration, meta.json (property, what it needs to manifest, what was run to confirm it, which check caught it)."""
 import json, os, re, shutil, sys
 
-SRC = "/tmp/seed_out"
+SRC = os.environ.get("SEED_SRC", "/tmp/seed_out")
 DST = os.path.join(os.path.dirname(os.path.dirname(os.path.abspath(__file__))), "seeded")
 
 
@@ -24,7 +24,7 @@ def main():
         d = os.path.join(SRC, prop)
         if not os.path.isdir(d) or not re.fullmatch(r"C\d+", prop):
             continue
-        for n in (1, 2, 3, 4):
+        for n in range(1, 10):
             patch = os.path.join(d, f"change{n}.diff")
             if not os.path.exists(patch):
                 continue
